@@ -486,7 +486,8 @@ func genC02Settings(t *rapid.T) Settings {
 		Hosts:       rapid.IntRange(1, 4).Draw(t, "hosts"),
 		RateLimit:   rapid.IntRange(0, 4).Draw(t, "ratelimit") == 0,
 	}
-	s.DiscardStatus = [][]int{nil, {429}, {429}, {429, 500}, {404}, {403, 503}, {200}, {204, 301, 302}}[rapid.IntRange(0, 7).Draw(t, "discard")]
+	// (the operator's list comes as typed: any order, duplicates)
+	s.DiscardStatus = [][]int{nil, {429}, {429}, {429, 500}, {404}, {403, 503}, {200}, {204, 301, 302}, {429, 404}, {503, 403}, {500, 404, 429, 404}}[rapid.IntRange(0, 10).Draw(t, "discard")]
 	if rapid.IntRange(0, 9).Draw(t, "rotation") == 0 {
 		s.WARCSizeMB = 1
 	}
